@@ -1,7 +1,9 @@
 (* Driver for the extracted M-LINT model: reads the case file of harness/cmd/lint
    and prints, per case, the observation the harness prints for the real code.
    mode "cli": a case is a migration directory + --latest N  -> Model.lint
-   mode "api": a case is a list of statement change lists    -> Model.analyze_file *)
+   mode "api": a case is a list of statement change lists    -> Model.analyze_file
+   mode "nl":  a cli case followed by `nl k` and, per file with comments, its id, the header comment
+               lines and the comment group of each statement position    -> Model.lint_nl *)
 open Model
 
 let rec nat_of_int i = if i <= 0 then O else S (nat_of_int (i - 1))
@@ -85,6 +87,26 @@ let parse_schange () : schange =
   let p = n_of_int (next_int ()) in let n = next_int () in
   { sc_pos = p; sc_changes = times n parse_change }
 
+let parse_nl () =
+  (match next () with "nl" -> () | s -> failwith ("nl " ^ s));
+  let k = next_int () in
+  times k (fun () ->
+    let id = n_of_int (next_int ()) in
+    let nh = next_int () in
+    let hdr = times nh (fun () -> hb (next ())) in
+    let ns = next_int () in
+    let stmts = times ns (fun () ->
+      let p = n_of_int (next_int ()) in
+      let nc = next_int () in
+      (p, times nc (fun () -> hb (next ())))) in
+    (id, { nl_hdr = hdr; nl_stmts = stmts }))
+
+let show_result id = function
+  | LintLoadError (f, _) -> Printf.printf "%s exit=1 loaderr=%d\n" id (int_of_n f)
+  | LintReport (files, failed) ->
+    Printf.printf "%s\n" (String.trim (Printf.sprintf "%s exit=%d %s" id (if failed then 1 else 0)
+      (String.concat " " (Stdlib.List.map (fun (f, ds) -> Printf.sprintf "%d:%s" (int_of_n f) (show_diags ds)) files))))
+
 let () =
   let mode = if Array.length Sys.argv > 1 then Sys.argv.(1) else "cli" in
   try
@@ -101,6 +123,12 @@ let () =
            let cl = times n parse_schange in
            let ds = analyze_file cl in
            Printf.printf "%s err=%d %s\n" id (if ds = [] then 0 else 1) (show_diags ds)
+         | "nl" ->
+           let latest = next_int () in
+           let nf = next_int () in
+           let dir = times nf parse_file in
+           let nls = parse_nl () in
+           show_result id (lint_nl dir nls (nat_of_int latest))
          | _ ->
            let latest = next_int () in
            let nf = next_int () in
